@@ -48,6 +48,16 @@ class Proxy:
         return getattr(self.real, k)
 
 
+def cpu_ticks(pid):
+    """utime+stime of a process (clock ticks); constant for a blocked, dead or reaped process"""
+    try:
+        with open(f"/proc/{pid}/stat") as f:
+            rest = f.read().rsplit(")", 1)[1].split()
+        return int(rest[11]) + int(rest[12])
+    except Exception:
+        return -1
+
+
 def read_log(path):
     if not os.path.exists(path):
         return []
@@ -113,7 +123,7 @@ def main(sc_path, out_path):
     from tak import self_play
     from harness import c18_factories as F
 
-    self_play.STOP_TIMEOUT = float(sc.get("stop_timeout", 5.0))
+    self_play.STOP_TIMEOUT = float(sc.get("stop_timeout", 30.0))
     W = int(sc["workers"])
     bound = float(sc.get("bound", 20))
     log_path = out_path + ".wlog"
@@ -134,23 +144,26 @@ def main(sc_path, out_path):
     if ext:
         def controller():
             # wait until one worker is held inside a game and every worker finished its factory
-            t_end = time.monotonic() + bound
-            while time.monotonic() < t_end:
-                ev = read_log(log_path)
-                held = [e["w"] for e in ev if e["ev"] == "hold"]
-                ready = [e["w"] for e in ev if e["ev"] == "ready"]
-                if held and len(set(ready)) == W:
+            try:
+                t_end = time.monotonic() + 120
+                while time.monotonic() < t_end:
+                    ev = read_log(log_path)
+                    held = [e["w"] for e in ev if e["ev"] == "hold"]
+                    ready = [e["w"] for e in ev if e["ev"] == "ready"]
                     idle = [w for w in sorted(set(ready)) if w not in held]
-                    time.sleep(0.5)      # the idle worker is now blocked in cmd.get(), holding its read lock
-                    victim = idle[0]
-                    fac.log_as(victim, "extkill", reading=True, code=-9)
-                    os.kill(engine.processes[victim].pid, signal.SIGKILL)
-                    engine.processes[victim].join(5)
-                    time.sleep(0.2)
-                    shared["gate"].set()
-                    return
-                time.sleep(0.05)
-            shared["gate"].set()
+                    if held and len(set(ready)) == W and idle:
+                        time.sleep(0.5)      # the idle worker is now blocked in cmd.get(), holding its read lock
+                        victim = idle[0]
+                        fac.log_as(victim, "extkill", reading=True, code=-9)
+                        os.kill(engine.processes[victim].pid, signal.SIGKILL)
+                        engine.processes[victim].join(5)
+                        time.sleep(0.2)
+                        return
+                    if held and len(set(ready)) == W:
+                        return
+                    time.sleep(0.05)
+            finally:
+                shared["gate"].set()
         threading.Thread(target=controller, daemon=True).start()
 
     def progress():
@@ -158,8 +171,10 @@ def main(sc_path, out_path):
             size = os.path.getsize(log_path)
         except OSError:
             size = 0
+        # worker CPU time counts as progress: on a loaded machine a process that is importing or
+        # tearing down slowly is not hung; a blocked or dead worker accumulates none
         return (sum(1 for t in list(trace) if t[0] not in ("get_enter", "timeout")), size,
-                tuple(p.exitcode for p in engine.processes))
+                tuple(p.exitcode for p in engine.processes), tuple(cpu_ticks(p.pid) for p in engine.processes))
 
     def started():
         seen = {e["w"] for e in read_log(log_path) if e.get("ev") == "factory"}
